@@ -93,6 +93,19 @@ def judgeC02 (o : Obs) : Verdict :=
         some (p.1.2, p.2.2, p.2.1.time) else none))
   fail (waits.any (fun a => waits.any (fun b => a.1 < b.1 && a.2.2 == b.2.2 && a.2.1 > b.2.1)))
     "two delays ending at the same time resumed in the opposite order of their start" ++
+  -- an activity whose delay ends at t was made runnable before t began (its activation sits in the bucket of t); a task made
+  -- runnable by `cancel()` *during* t comes after all of them: the delivery of the cancellation (the task ends cancelled,
+  -- catches CancelTask or starts its clean-up with it) cannot precede the resumption of such a delay
+  (idx o).flatMap (fun c =>
+    if c.1.tag == "cancel" && arg c.1 1 == 2 then
+      match (idx o).find? (fun d => d.2 > c.2 && d.1.label == arg c.1 0) with
+      | some d =>
+        let delivered := (d.1.tag == "tfin" && arg d.1 0 == 1) || (d.1.tag == "caught" && arg d.1 0 == 10) ||
+          (d.1.tag == "cleanup" && arg d.1 0 == 1 && arg d.1 1 == 10)
+        fail (delivered && d.1.time == c.1.time && waits.any (fun w => w.2.2 == d.1.time && w.2.1 > d.2))
+          s!"task {arg c.1 0} was made runnable by cancel() during time {c.1.time} and ran (event {d.2}) before an activity whose delay ended at that time and was queued before"
+      | none => []
+    else []) ++
   -- the levels of a resource supply iterate in the order of their names - not in the order of some earlier spelling that a
   -- cache happens to remember
   o.events.flatMap (fun e =>
@@ -476,6 +489,9 @@ def judgeC11 (o : Obs) : Verdict :=
         (match (ofLabel o e.label).getLast? with
           | some (n, ni) => ni == p.2 || (n.tag == "cnext" && arg n 0 == c && arg n 1 == sid)
           | none => false)
+      -- ... and if the channel was closed, nobody is left waiting: iteration has ended, `await channel` has raised
+      let closedCh := o.events.any (fun x => x.tag == "cclose" && arg x 0 == c)
+      fail (waitingAtEnd && closedCh) s!"channel {c} was closed, but subscription {sid} of consumer {e.label} still waits for its next message at the end of the run" ++
       fail (waitingAtEnd && got != expected) s!"channel {c}: subscription {sid} of consumer {e.label} still waits at the end of the run with {got} although {expected} were put" ++
       fail closedEarly s!"channel {c}: `await channel` of {e.label} raised StreamClosed although a message was put while it waited" ++
       fail strays s!"channel {c}: subscription {sid} of {e.label} received a message outside its lifetime" ++
@@ -555,7 +571,21 @@ def judgeC14 (o : Obs) : Verdict :=
         -- a tick after a body run that took longer than the period must not happen
         (ticks.zip bodyEnds).flatMap (fun tb =>
           fail (tb.2.1.time - tb.1.1.time > period && ticks.any (fun t => t.2 > tb.2.2))
-            s!"interval({period}): body ran from {tb.1.1.time} to {tb.2.1.time} and the iteration still continued")
+            s!"interval({period}): body ran from {tb.1.1.time} to {tb.2.1.time} and the iteration still continued") ++
+        -- IntervalExceeded exactly then: asking for the next tick after a body run ends (the iterator does not suspend before
+        -- it decides) raises IntervalExceeded if the run took longer than the period - and nothing else -, and does not otherwise
+        (ticks.zip bodyEnds).flatMap (fun tb =>
+          let isExc (n : Ev) := (n.tag == "caught" || n.tag == "rootexc" || (n.tag == "tfin" && arg n 0 == 3) ||
+            (n.tag == "cleanup" && arg n 0 == 1))
+          let code (n : Ev) := if n.tag == "caught" || n.tag == "rootexc" then arg n 0 else arg n 1
+          match (ofLabel o e.label).find? (fun q => q.2 > tb.2.2) with
+          | some (n, _) =>
+            let over := tb.2.1.time - tb.1.1.time > period
+            fail (over && n.tag != "tend" && !(isExc n && code n == 6))
+              s!"interval({period}): body ran from {tb.1.1.time} to {tb.2.1.time}, longer than the period, and then {n.tag} {n.args} instead of IntervalExceeded" ++
+            fail (!over && n.time == tb.2.1.time && n.turn == tb.2.1.turn && isExc n && code n == 6)
+              s!"interval({period}): IntervalExceeded although the body only ran from {tb.1.1.time} to {tb.2.1.time}"
+          | none => [])
       else
         let starts := e.time :: bodyEnds.map (·.1.time)
         (ticks.zip starts).flatMap (fun ts => fail (ts.1.1.time != ts.2 + period)
@@ -613,6 +643,16 @@ def judgeC20 (o : Obs) (spinners : Nat) : Verdict :=
         else []
       | none => []
     else []) ++
+  -- each step of an iteration over a queue / over first(): when two results reach the consumer (root activity 0, same
+  -- convention) at the same time, every activity that stays runnable gets a turn in between
+  (if (List.range spinners).all (fun (s : Nat) => o.events.any (fun e => e.label == 1 + (s : Int))) then
+    (pairs ((ofLabel o 0).filter (·.1.tag == "got"))).flatMap (fun g =>
+      if g.1.1.time == g.2.1.time then
+        (List.range spinners).flatMap (fun (s : Nat) =>
+          fail (!((idx o).any (fun q => q.2 > g.1.2 && q.2 < g.2.2 && q.1.label == 1 + (s : Int))))
+            s!"the iteration of activity 0 delivered two results at {g.1.1.time} (events {g.1.2}, {g.2.2}) before runnable activity {s + 1} got a turn")
+      else [])
+  else []) ++
   -- giving borrowed resources back - also when the holder is thrown out of the block by a cancellation or the interrupt of an
   -- `until` - yields: between the end of the block's body (`bbody`) and the end of the block (`bexit`) every activity that
   -- stays runnable (same convention: the root activities 1..k) gets a turn
@@ -669,7 +709,33 @@ def flowAborted (what : String) (acts : List FlowAct) (E : Nat) (tE : Rat) (o : 
     fail (x.started && (match x.fin with | some f => f.1 > E | none => true))
       s!"{what}: activity {x.label} was neither finished nor aborted when the call ended at {tE}")
 
+/-- exception classes that only the library itself raises by mistake: an internal assertion, a leaked signal, a coroutine
+resumed twice / that ignored its close, anything unknown (ValueError is the documented answer to a `count` that is too large) -/
+def libraryError (c : Int) : Bool := c == 9 || c == 10 || c == 14 || c == 15 || c == 99
+
 def judgeC16 (o : Obs) : Verdict :=
+  -- none of the activities of a collect() / first() ends with an error of the library's own making: aborting "the rest" means
+  -- closing it, whatever it holds or waits for at that moment (what the *consumer* of first() sees when an activity fails while
+  -- it is suspended in its loop body is observation F14 and not judged here)
+  ((idx o).flatMap (fun p =>
+    let b := p.1
+    if b.tag == "cbegin" || b.tag == "fbegin" then
+      let n := (arg b 0).toNat
+      let base := if b.tag == "cbegin" then arg b 1 else arg b 3
+      (List.range n).flatMap (fun (k : Nat) =>
+        let l : Int := base + (k : Int)
+        match ((ofLabel o l).filter (·.2 > p.2)).find? (·.1.tag == "tfin") with
+        | some (f, _) =>
+          let codes : List Int := if arg f 0 == 3 then
+              (match f.args.drop 1 with
+               | 3 :: rest => (decodeCodes rest.length rest).map (·.headD 0)
+               | c :: _ => [c]
+               | [] => [])
+            else []
+          fail (codes.any libraryError)
+            s!"activity {l} of the collect()/first() of {b.label} ended at {f.time} with an error of the library's own making: tfin {f.args}"
+        | none => [])
+    else [])) ++
   (idx o).flatMap (fun p =>
     let b := p.1
     let i := p.2
